@@ -471,24 +471,31 @@ def fwdLoop (parent : PortId) (pathTraceEnabled : Bool) (loose : Bool) : Nat →
         else fwdLoop parent pathTraceEnabled loose fuel rest (margin - t.tlv.wireSize) (acc ++ t.tlv.bytes)
       else .ok (acc, q)
 
+/-- the path trace TLV of an emitted Announce (own identity appended to the stored path) and the room left after it -/
+def announcePathTlv (s : InstState) (margin0 : Nat) : List UInt8 × Nat :=
+  if s.pathEnable then
+    if s.pathTrace.length < PATH_TRACE_CAP then
+      if margin0 > (⟨TLV_PATH_TRACE, (s.pathTrace ++ [s.dflt.clockIdentity]).flatMap clockIdBytes⟩ : Tlv).wireSize then
+        ((⟨TLV_PATH_TRACE, (s.pathTrace ++ [s.dflt.clockIdentity]).flatMap clockIdBytes⟩ : Tlv).bytes,
+         margin0 - (⟨TLV_PATH_TRACE, (s.pathTrace ++ [s.dflt.clockIdentity]).flatMap clockIdBytes⟩ : Tlv).wireSize)
+      else ([], margin0)
+    else ([], margin0)
+  else ([], margin0)
+
+/-- room for TLVs in an Announce -/
+def announceMargin (s : InstState) (p : Port) : Nat := MAX_DATA_LEN - (msgAnnounce s p.id p.annSeq p.cfg.minorVersion).wireSize
+
+/-- the Announce a master port sends, given the forwarded TLV bytes -/
+def Port.announceMsg (p : Port) (s : InstState) (fw : List UInt8) : Msg :=
+  { msgAnnounce s p.id p.annSeq p.cfg.minorVersion with suffix := (announcePathTlv s (announceMargin s p)).1 ++ fw }
+
 /-- `send_announce` (announce timer); `q` is the host's forwarded-TLV queue for this port -/
 def Port.sendAnnounce (p : Port) (s : InstState) (q : List FwdTlv) (loose : Bool := true) :
     R (Port × List Out × List FwdTlv) :=
-  if p.st = .master then do
-    let m := msgAnnounce s p.id p.annSeq p.cfg.minorVersion
-    let margin0 := MAX_DATA_LEN - m.wireSize
-    let (pt, margin1) :=
-      if s.pathEnable then
-        if s.pathTrace.length < PATH_TRACE_CAP then
-          let value := (s.pathTrace ++ [s.dflt.clockIdentity]).flatMap clockIdBytes
-          let t : Tlv := ⟨TLV_PATH_TRACE, value⟩
-          if margin0 > t.wireSize then (t.bytes, margin0 - t.wireSize) else ([], margin0)
-        else ([], margin0)
-      else ([], margin0)
-    let (fw, q') ← fwdLoop s.parent.parentPort s.pathEnable loose (q.length + 1) q margin1 []
-    let m := { m with suffix := pt ++ fw }
-    .ok ({ p with annSeq := nextSeq p.annSeq },
-         [.reset .announce (.exact (intervalNs p.cfg.announceLog)), .sendGeneral (encode m) false], q')
+  if p.st = .master then
+    (fwdLoop s.parent.parentPort s.pathEnable loose (q.length + 1) q (announcePathTlv s (announceMargin s p)).2 []).map fun r =>
+      ({ p with annSeq := nextSeq p.annSeq },
+       [.reset .announce (.exact (intervalNs p.cfg.announceLog)), .sendGeneral (encode (p.announceMsg s r.1)) false], r.2)
   else .ok (p, [], q)
 
 def Port.handleDelayReq (p : Port) (h : Header) (ts : Nat) : R (Port × List Out) :=
